@@ -44,6 +44,17 @@ func (op *FsTxn) CommitFh() bool {
 // An aborted transaction may free an inode, which results in dirty
 // buffers that need to be written to log. So, call commit.
 func (op *FsTxn) Abort() bool {
+	// The transaction may have modified the cached inodes it holds (and
+	// their directory caches) in place. None of that reaches the disk, so
+	// forget the cached copies; the next user re-reads them from disk.
+	if op.Atxn.Modified() {
+		for _, ip := range op.inodes {
+			cslot := op.Fs.Icache.LookupSlot(uint64(ip.Inum))
+			if cslot != nil {
+				cslot.Obj = nil
+			}
+		}
+	}
 	op.releaseInodes()
 	op.Atxn.PostAbort()
 	return true
